@@ -157,7 +157,7 @@ def run(ctx):
     for schema in ALL_SCHEMAS:
         for k in range(per):
             rich = k % 3 != 0
-            big = (ctx.tier != "quick" and k % 50 == 0) or (k == 7)
+            big = (ctx.tier != "quick" and k % 25 == 0) or (k in (7, 57, 107))
             sA = GS.gen_snapshot(ctx.rng, schema, rich=rich, big=big, allow_nul=True, borderline=True)
             sB = GS.gen_snapshot(ctx.rng, schema, rich=(k % 2 == 0), borderline=True)
             by = GS.gen_snapshot(ctx.rng, schema, rich=True, hostile_sentinels=False)
